@@ -15,7 +15,7 @@ CLASS_OF = {"crossed": "temps-cross-function-boundary"}
 
 
 def cases(O):
-    n = 700 if O.tier == "quick" else 4000
+    n = 700 if O.tier == "quick" else 12000
     cases = E.default_cases(O, "C06", n_quick=n, n_thorough=n)
     # planted reserved identifiers: the configuration's prefix is fixed so that the generator can aim at it
     for i in range(n // 2):
